@@ -60,8 +60,23 @@ func structTableField(p *core.Prog, v ssa.Value) *tableRef {
 				src = st.Val
 			}
 		}
+		if n != 1 {
+			return nil
+		}
+		// (ranging over an array value: the loop reads elements of a copy of the
+		// whole array, taken once before the loop)
+		if ix, ok := src.(*ssa.Index); ok {
+			if whole, ok := ix.X.(*ssa.UnOp); ok && whole.Op == token.MUL {
+				if arr, ok := whole.X.(*ssa.Alloc); ok {
+					if rows := localStructRows(arr, false); rows != nil {
+						return &tableRef{Alloc: arr, Index: ix.Index, Field: fld, Rows: rows}
+					}
+				}
+			}
+			return nil
+		}
 		ld, ok := src.(*ssa.UnOp)
-		if n != 1 || !ok || ld.Op != token.MUL {
+		if !ok || ld.Op != token.MUL {
 			return nil
 		}
 		row = ld.X
@@ -193,6 +208,19 @@ func localStructRows(arr *ssa.Alloc, escapes bool) [][]ssa.Value {
 					if _, isG := u.Addr.(*ssa.Global); !escapes || !isG || u.Val != ssa.Value(r) {
 						return nil
 					}
+				default:
+					return nil
+				}
+			}
+		case *ssa.UnOp:
+			// the whole array read (for a range over its value): elements of the
+			// copy are only read
+			if r.Op != token.MUL {
+				return nil
+			}
+			for _, rr := range *r.Referrers() {
+				switch rr.(type) {
+				case *ssa.Index, *ssa.DebugRef:
 				default:
 					return nil
 				}
